@@ -124,6 +124,8 @@ def c11(r) -> list:
     # victim exactness, per create_task call
     for s in r['sub']:
         i, cid, q0, q1 = s['ev'], s['cid'], s['q0'], s['q1']
+        if s.get('raised'):
+            bad.append((i, f'create_task({cid}) raised {s["raised"]} (a submission is handled as the policy says, it never raises)'))
         idle_start = s['run0'] is None and not q0
         plain = (s['closed'] == [] and ((q1 == q0 + [cid] and s['started'] == [] and not idle_start)
                                         or (idle_start and q1 == [] and s['started'] == [cid] and s['run1'] == cid)))
@@ -188,6 +190,8 @@ def c12(r) -> list:
                     bad.append((i, f'done-callback of {h // 2} ran but it is still tracked'))
     for s in r['sub']:
         i, cid, t0, t1 = s['ev'], s['cid'], s['t0'], s['t1']
+        if s.get('raised'):
+            bad.append((i, f'create_task({cid}) raised {s["raised"]} (a submission is handled as the policy says, it never raises)'))
         if lim is not None and len(t1) > lim:
             bad.append((i, f'create_task({cid}): {len(t1)} tasks tracked, limit {lim}'))
         plain = s['closed'] == [] and s['victims'] == [] and s['started'] == [cid] and s['ret'] == cid
